@@ -1417,7 +1417,7 @@ class C15(Property):
 
     def _cases(self, seed, tier, widen):
         rng = random.Random(f'C15-{seed}')
-        n = (6000 if tier == 'quick' else 300000) * widen
+        n = (6000 if tier == 'quick' else 200000) * widen
         cases = [WITNESS_LOST, WITNESS_SWALLOW, WITNESS_REMOVE, WITNESS_LOSS, WITNESS_LOSS_AUTO]
         cdir = common.CORPUS / 'C15'
         if cdir.is_dir():
